@@ -4,7 +4,8 @@ Line-protocol side of the transaction model (streams C03, C02, C32).
 A step line is `<query text> | <res> <chg> <body> [<stride> <offset>]` where the part after ` | ` is
 the observation hint written by the harness: result (`ok:<n>` / `err`), whether the observable state
 changed (0/1) and the run-length encoded kinds of the storage calls the step issued, WITHOUT the
-flushes (`w` write, `o` zero-length write, `z` resize, `!` a failed call, `F` a failed flush).  From that the model predicts
+flushes (`w` write, `o` zero-length write, `z` resize, `p` a call that panicked before doing anything,
+`!` a failed call, `F` a failed flush).  From that the model predicts
 where the flushes are, the log-empty flag of every crash point and the class of every (sampled)
 crash point.
 -/
@@ -67,8 +68,6 @@ structure DState where
   fault : FaultMode := .none
   fired : Bool := false
 
-def imgEq (bound : Nat) (a b : Img) : Bool := (List.range (bound + 1)).all (fun i => a i == b i)
-
 structure Hint where
   res : String
   chg : Bool
@@ -96,7 +95,7 @@ def buildEvents (body : List Char) (cell : Nat) (fault : FaultMode) : List Ev ×
     | c :: rest =>
       if c = 'F' then go rest (i + 1) evs kinds
       else if fault.fails (i + 1) then go rest (i + 1) (Ev.fail :: evs) ('!' :: kinds)
-      else if c = 'o' then go rest (i + 1) (Ev.nop :: evs) ('o' :: kinds)
+      else if c = 'o' || c = 'p' then go rest (i + 1) (Ev.nop :: evs) (c :: kinds)
       else go rest (i + 1) (Ev.write (cell + i) 1 :: evs) ((if c = '!' then '?' else c) :: kinds)
   go body 0 [] []
 
@@ -105,12 +104,46 @@ def splitAtFail : List Ev → List Ev × List Ev
   | .fail :: rest => ([Ev.fail], rest)
   | e :: rest => let (a, b) := splitAtFail rest; (e :: a, b)
 
+/-- Between steps only the nesting depth and whether the log is empty matter for what the driver
+prints; the image itself is reset so that evaluation cost does not grow along a history. -/
+def compact (s : St) : St :=
+  if s.log.isEmpty then { depth := s.depth, data := Img.zero, log := [], committed := Img.zero }
+  else { depth := s.depth, data := Img.zero, log := [(0, 0)], committed := Img.zero }
+
 structure StepOut where
   line : String
   st : St
   fired : Bool
 
-/-- one `exec_mut` / `transaction_mut` step with the fixed code -/
+/-- crash points of a step as the harness sees them: before every body call, before the flush call
+(if one is issued), after the last call -/
+structure Shape where
+  callPts : List St
+  flushPt : List St
+  final : St
+
+/-- `DbImpl::transaction_mut` (fixed) -/
+def shapeTxn (closure undo : List Ev) (closureOk : Bool) (s : St) (flushOk : Bool) : Shape :=
+  let r := txnFixed closure undo closureOk s flushOk
+  let inner := r.points.drop 1
+  -- `end_transaction` calls `flush` only when the counter returns to 0
+  ⟨inner.dropLast, if s.depth = 0 then inner.drop (inner.length - 1) else [], r.final⟩
+
+/-- a panic inside the closure unwinds through `transaction_mut`: the storage transaction opened at
+its start is never closed -/
+def shapePanic (closure undo : List Ev) (s : St) : Shape :=
+  let r1 := run closure s.begin
+  let r2 := finish r1.ok undo r1.final
+  ⟨r1.points ++ r2.points, [], r2.final⟩
+
+/-- `Drop for DbImpl`: `Storage::optimize_storage`, a bracket of its own (`commit(id)`, which flushes
+only when the depth returns to 0) -/
+def shapeClose (evs : List Ev) (s : St) (flushOk : Bool) : Shape :=
+  let r := run evs s.begin
+  if r.final.depth = 1 then ⟨r.points, [r.final], r.final.commit flushOk⟩
+  else ⟨r.points, [], r.final.commit flushOk⟩
+
+/-- one `exec_mut` / `transaction_mut` / close step -/
 def stepLine (d : DState) (h : Hint) (isClose : Bool) : StepOut :=
   let nBody := (h.body.filter (· ≠ 'F')).length
   let (evs, kinds) := buildEvents h.body d.cell d.fault
@@ -118,44 +151,42 @@ def stepLine (d : DState) (h : Hint) (isClose : Bool) : StepOut :=
   let (closure, undo) := splitAtFail evs
   let anyFail := evs.any (· == Ev.fail)
   let okRes := h.res.startsWith "ok"
-  let r : Run :=
-    if isClose then
-      -- Drop for DbImpl: `optimize_storage` is a bracket of its own (no transaction_mut)
-      let r0 := run (Ev.begin :: evs) d.st
-      let fin := r0.final.commitOutermost (d.st.depth + 1) flushOk
-      ⟨r0.points ++ [r0.final], fin, r0.ok⟩
-    else txnFixed closure undo (okRes && !anyFail) d.st flushOk
-  -- harness crash points: before every call (incl. the flush) and after the last one
-  let pts := (r.points.drop 1) ++ [r.final]
-  let executed := pts.length - 2
-  let traceKinds := kinds.take executed ++ [if flushOk then 'f' else 'F']
+  let isPanic := h.res.startsWith "panic"
+  let sh : Shape :=
+    if isPanic then shapePanic closure undo d.st
+    else if isClose then shapeClose evs d.st flushOk
+    else shapeTxn closure undo (okRes && !anyFail) d.st flushOk
+  let pts := sh.callPts ++ sh.flushPt ++ [sh.final]
+  let traceKinds := kinds.take sh.callPts.length ++ sh.flushPt.map (fun _ => if flushOk then 'f' else 'F')
   let wal := pts.map (fun p => if p.log.isEmpty then 'e' else 'n')
-  let pre := d.st.data
-  let post := r.final.data
-  let bound := d.cell + nBody + 1
-  let cls := pts.map (fun p =>
+  let pre := recover d.st
+  let post := sh.final.data
+  let cells := (List.range (nBody + 1)).map (· + d.cell)
+  let classOf := fun (p : St) =>
     if !h.chg then 'a'
-    else if imgEq bound (recover p) pre then 'a'
-    else if imgEq bound (recover p) post then 'b' else 'x')
+    else
+      let rp := recover p
+      if cells.all (fun i => rp i == pre i) then 'a'
+      else if cells.all (fun i => rp i == post i) then 'b' else 'x'
   let n := pts.length
-  let idx := List.range n
-  let keep := idx.filter (fun k => sampled k n h.stride h.offset)
-  let clsS := keep.filterMap (fun k => cls[k]?)
+  let keep := (List.range n).filter (fun k => sampled k n h.stride h.offset)
+  let clsS := if d.prop = "C03" then keep.filterMap (fun k => (pts[k]?).map classOf) else []
   let opn := keep.map (fun _ => 'o')
-  let fired := anyFail || !flushOk
-  let res := if fired && !isClose then "err" else h.res
-  let walend := if r.final.log.isEmpty then "e" else "n"
+  let fired := anyFail || (!flushOk && !sh.flushPt.isEmpty)
+  let res := if fired && !isClose && !isPanic then "err" else h.res
+  let walend := if sh.final.log.isEmpty then "e" else "n"
   let line :=
     if d.prop = "C32" then
       if isClose then
-        s!"{res} trace={rleEncode traceKinds} walend={walend} reopen=o1"
+        if d.fired || fired then s!"{res} trace=* walend=* reopen=*"
+        else s!"{res} trace={rleEncode traceKinds} walend={walend} reopen=o1"
       else
         s!"{res} trace={rleEncode traceKinds} walend={walend} eff={if fired && h.chg then 1 else 0}"
     else if d.prop = "C02" then
       s!"{res} trace={rleEncode traceKinds} wal={rleEncode wal} open={rleEncode opn}"
     else
       s!"{res} trace={rleEncode traceKinds} wal={rleEncode wal} cls={rleEncode clsS}"
-  ⟨line, r.final, fired⟩
+  ⟨line, sh.final, fired⟩
 
 def handle (d : DState) (line : String) : DState × String :=
   let line := line.trimAscii.toString
@@ -175,8 +206,7 @@ def handle (d : DState) (line : String) : DState × String :=
       | none => (d, "bad-op")
       | some h =>
         let o := stepLine d h (first = "close")
-        let nBody := h.body.length
-        ({ d with st := o.st, cell := d.cell + nBody + 1, fault := .none,
+        ({ d with st := compact o.st, cell := 0, fault := .none,
                   fired := d.fired || o.fired }, o.line)
     else (d, "bad-op")
   | _ => (d, "bad-op")
